@@ -409,6 +409,28 @@ func extractC14() *lean {
 		})
 	}
 	l.def("writeBackSkipsGone", "Bool", map[bool]string{true: "true", false: "false"}[wbSkips], wbSkips)
+	// Notify: under which condition the failed first notification is rescheduled (retry) - only an EventFatal may drop it
+	notifyRetryCond := []string{}
+	if fd := funcDecl(nf, "Notify"); fd != nil {
+		ast.Inspect(fd, func(n ast.Node) bool {
+			if is, ok := n.(*ast.IfStmt); ok && c14CallsIn(is.Body, "p.retry") > 0 && c14CallsIn(is.Cond, "p.notifyNow") == 0 {
+				notifyRetryCond = append(notifyRetryCond, c14Expr(is.Cond))
+			}
+			return true
+		})
+	}
+	l.def("notifyRetryCondition", "List String", leanStrList(notifyRetryCond), notifyRetryCond)
+	// notifyNow: which errors are wrapped in retry.Unrecoverable
+	var unrec []string
+	if fd := funcDecl(nf, "notifyNow"); fd != nil {
+		ast.Inspect(fd, func(n ast.Node) bool {
+			if ce, ok := n.(*ast.CallExpr); ok && exprString(ce.Fun) == "retry.Unrecoverable" {
+				unrec = append(unrec, c14Expr(ce))
+			}
+			return true
+		})
+	}
+	l.def("notifyNowUnrecoverable", "List String", leanStrList(unrec), unrec)
 	// Save: "only schedule new events" - writeEvent only under errors.Is(err, stoabs.ErrKeyNotFound) of a read of the key
 	saveGuarded, saveWrites := 0, 0
 	if fd := funcDecl(nf, "Save"); fd != nil {
